@@ -76,7 +76,7 @@ func (c11) FaultKinds() []string {
 	return []string{"handler_writes_after_writeheader", "handler_deletes_cors_header", "handler_sets_vary", "preset_vary_present", "preset_cors_header_present", "zero_length_header_list", "multi_valued_origin"}
 }
 func (c11) Probes() []string {
-	return []string{"preflight_on_configured", "preflight_on_passthrough", "non_preflight_options_with_origin", "actual_request_with_preset", "handler_invoked_once", "reconfigure_to_passthrough_and_back"}
+	return []string{"preflight_on_configured", "preflight_on_passthrough", "non_preflight_options_with_origin", "actual_request_with_preset", "handler_invoked_once", "reconfigure_to_passthrough_and_back", "via_long_lived_wrapped_handler"}
 }
 
 var c11HdrNames = []string{"Vary", "Access-Control-Allow-Origin", "Access-Control-Allow-Credentials", "Access-Control-Expose-Headers",
@@ -263,6 +263,12 @@ func hasPrefixVals(vals, prefix []string) bool {
 	return len(vals) >= len(prefix) && hvEqual(vals[:len(prefix)], prefix)
 }
 
+// delegate lets ONE long-lived wrapped handler (obtained from Wrap once, at
+// creation time, and kept across every later Reconfigure) serve all cases.
+type delegate struct{ h http.Handler }
+
+func (d *delegate) ServeHTTP(w http.ResponseWriter, r *http.Request) { d.h.ServeHTTP(w, r) }
+
 func (c11) Exec(plan any, c *Ctx) *Violation {
 	p := plan.(*C11Plan)
 	var m *cors.Middleware
@@ -279,6 +285,8 @@ func (c11) Exec(plan any, c *Ctx) *Violation {
 		configured = true
 	}
 	sawConf, sawPass, nConf := configured, !configured, 0
+	dg := &delegate{}
+	longLived := m.Wrap(dg) // wrapped once, in the creation state, used for the whole history
 	idx := p.Salt
 	batch := func(label string) *Violation {
 		reqs := append(append([]Req{}, c11Grid...), p.Extra...)
@@ -292,7 +300,12 @@ func (c11) Exec(plan any, c *Ctx) *Violation {
 			if len(p.Scripts) > 0 {
 				sc = p.Scripts[(idx/3)%len(p.Scripts)]
 			}
-			if v := c11Case(m, configured, q, preset, sc, label, c); v != nil {
+			var via http.Handler // every third case goes through a freshly wrapped handler instead
+			if idx%3 != 0 {
+				via = longLived
+				c.hit("via_long_lived_wrapped_handler")
+			}
+			if v := c11Case(m, via, dg, configured, q, preset, sc, label, c); v != nil {
 				return v
 			}
 		}
@@ -341,7 +354,7 @@ func (c11) Exec(plan any, c *Ctx) *Violation {
 	return nil
 }
 
-func c11Case(m *cors.Middleware, configured bool, q Req, preset []HV, sc Script, label string, c *Ctx) *Violation {
+func c11Case(m *cors.Middleware, via http.Handler, dg *delegate, configured bool, q Req, preset []HV, sc Script, label string, c *Ctx) *Violation {
 	rec := newRec(preset)
 	presetMap := cloneHeader(rec.h)
 	req := q.build()
@@ -375,7 +388,14 @@ func c11Case(m *cors.Middleware, configured bool, q Req, preset []HV, sc Script,
 			c.hit("handler_sets_vary")
 		}
 	}
-	pan := catch(func() { m.Wrap(h).ServeHTTP(rec, req) })
+	pan := catch(func() {
+		if via != nil {
+			dg.h = h
+			via.ServeHTTP(rec, req)
+		} else {
+			m.Wrap(h).ServeHTTP(rec, req)
+		}
+	})
 	c.Steps++
 	ctxs := func() string {
 		return fmt.Sprintf("%s configured=%v req=%s preset=%v script=%+v", label, configured, q, preset, sc)
